@@ -924,3 +924,173 @@ func (x *Ctx) quietReject(site ssa.Instruction, c Cmp) bool {
 	}
 	return seen && ok
 }
+
+func init() {
+	register(&Rule{ID: "OBS.edit", Min: 3, Text: "an undo/redo that changed something is propagated: Edit.Execute decides whether its identity-preserving restore/retombstone branch was observable from the effect lists the model hands back — every list of revived or recreated nodes returned by Text.Restore and the list of pairs returned by Text.Retombstone flows (through its length) into the Observable flag of the result returned on that branch; executeUndoRedo appends the change to the local changes only when some operation was observable, so an effect list left out means content that shows locally and never reaches the server",
+		Run: func(x *Ctx) {
+			fn := x.fn(opsPkg + ".(*Edit).Execute")
+			obsF := x.P.Field(opsPkg + ".ExecutionResult.Observable")
+			if fn == nil || obsF == nil {
+				x.C.Unresolved(x.id(), "operations.Edit.Execute / ExecutionResult.Observable")
+				return
+			}
+			// the Observable values stored into returned results
+			var obsVals []ssa.Value
+			for _, st := range storesTo(fn, obsF) {
+				obsVals = append(obsVals, st.Val)
+			}
+			n := 0
+			for _, c := range prog.CallsIn(fn) {
+				o := prog.CallObj(c)
+				if o == nil || !(o.Name() == "Restore" || o.Name() == "Retombstone") || c.Value() == nil {
+					continue
+				}
+				for _, ref := range *c.Value().Referrers() {
+					ex, ok := ref.(*ssa.Extract)
+					if !ok {
+						continue
+					}
+					sl, isSl := ex.Type().Underlying().(*types.Slice)
+					if !isSl {
+						continue
+					}
+					_, isPtr := sl.Elem().Underlying().(*types.Pointer)
+					if o.Name() == "Restore" && !isPtr {
+						continue // the born-tombstoned split remainders: GC bookkeeping, nothing a peer can see
+					}
+					n++
+					feeds := false
+					isEx := func(w ssa.Value) bool { return w == ssa.Value(ex) }
+					for _, ov := range obsVals {
+						if prog.DependsOn(ov, isEx) {
+							feeds = true
+						}
+						// a || b || c is control flow: the operands decide which constant edge of the phi is taken
+						prog.DependsOn(ov, func(w ssa.Value) bool {
+							ph, ok := w.(*ssa.Phi)
+							if !ok {
+								return false
+							}
+							for _, pb := range ph.Block().Preds {
+								conds := x.P.ControlDeps(pb)
+								if iff := prog.IfOf(pb); iff != nil {
+									conds = append(conds, iff)
+								}
+								for _, ifi := range conds {
+									if ifi.Block().Parent() == fn && prog.DependsOn(ifi.Cond, isEx) {
+										feeds = true
+									}
+								}
+							}
+							return false
+						})
+					}
+					x.check(feeds, fmt.Sprintf("func=%s effects-of=%s result#%d feeds-Observable", prog.FnName(fn), o.Name(), ex.Index), x.pos(c), "the effect list decides Observable", "an effect list returned by "+o.Name()+" does not flow into the Observable flag: an undo/redo whose only effect is in that list (e.g. content recreated after it was garbage-collected) is applied locally but never appended to the local changes")
+				}
+			}
+			if n < 3 {
+				x.C.Vacuous(x.id()+" effect lists", n, 3)
+			}
+		}})
+
+	register(&Rule{ID: "HIST.cap", Min: 4, Text: "the history stacks are LIFO and evict the oldest entry: PushUndo and PushRedo, on the edge where the stack is full, re-slice it from index 1 (dropping element 0) before appending; PopUndo and PopRedo return element len-1 and re-slice to [:len-1]",
+		Run: func(x *Ctx) {
+			n := 0
+			for _, sp := range []struct{ fn, field string }{{"PushUndo", "undoStack"}, {"PushRedo", "redoStack"}, {"PopUndo", "undoStack"}, {"PopRedo", "redoStack"}} {
+				fn := x.fn(docPkg + ".(*History)." + sp.fn)
+				f := x.P.Field(docPkg + ".History." + sp.field)
+				if fn == nil || f == nil {
+					x.C.Unresolved(x.id(), docPkg+".History."+sp.fn)
+					continue
+				}
+				n++
+				k := "func=" + prog.FnName(fn)
+				isLenMinus1 := func(v ssa.Value) bool {
+					base, kk := affine(v)
+					c, ok := prog.Strip(base).(*ssa.Call)
+					if !ok || kk != -1 {
+						return false
+					}
+					bi, isB := c.Call.Value.(*ssa.Builtin)
+					return isB && bi.Name() == "len" && prog.LoadedField(c.Call.Args[0]) == f
+				}
+				var slices []*ssa.Slice
+				for _, b := range fn.Blocks {
+					for _, ins := range b.Instrs {
+						if sl, ok := ins.(*ssa.Slice); ok && prog.LoadedField(sl.X) == f {
+							slices = append(slices, sl)
+						}
+					}
+				}
+				if strings.HasPrefix(sp.fn, "Push") {
+					ok := false
+					for _, sl := range slices {
+						lo, isLo := int64(0), false
+						if sl.Low != nil {
+							lo, isLo = prog.IntConst(sl.Low)
+						}
+						if isLo && lo == 1 && sl.High == nil {
+							ok = true
+						}
+					}
+					x.check(ok && len(slices) == 1, k+" evicts-oldest", x.fpos(fn), "a full stack drops element 0", "a full stack no longer drops its oldest entry (element 0): the entry evicted is a recent one and a later undo reverts an edit out of order")
+					continue
+				}
+				okSlice, okElem := false, false
+				for _, sl := range slices {
+					if sl.Low == nil && sl.High != nil && isLenMinus1(sl.High) {
+						okSlice = true
+					}
+				}
+				for _, b := range fn.Blocks {
+					for _, ins := range b.Instrs {
+						if ia, ok := ins.(*ssa.IndexAddr); ok && prog.LoadedField(ia.X) == f && isLenMinus1(ia.Index) {
+							okElem = true
+						}
+					}
+				}
+				x.check(okSlice && okElem, k+" pops-newest", x.fpos(fn), "returns element len-1 and shrinks to [:len-1]", "the pop no longer takes the newest entry (element len-1) and shrinks the stack by it")
+			}
+			if n < 4 {
+				x.C.Vacuous(x.id()+" stack operations", n, 4)
+			}
+		}})
+
+	register(&Rule{ID: "POS.inv", Min: 2, Text: "normalizePos and refinePos of RGATreeSplit are inverse walks over the physical chain in one unit: the length they add (normalizePos, over the prev links) and subtract (refinePos, over the next links) for every node they step over is the node's live length Len() (0 for a tombstone) in both — only the node the offset starts in is measured by its content; an undo anchor normalised in one unit and refined in the other lands beyond every tombstone to its left",
+		Run: func(x *Ctx) {
+			n := 0
+			for _, sp := range []struct{ fn, link string }{{"normalizePos", "prev"}, {"refinePos", "next"}} {
+				fn := x.fn(crdtPkg + ".(*RGATreeSplit)." + sp.fn)
+				if fn == nil {
+					x.C.Unresolved(x.id(), crdtPkg+".RGATreeSplit."+sp.fn)
+					continue
+				}
+				n++
+				units := map[string]bool{}
+				for _, c := range prog.CallsIn(fn) {
+					name := ""
+					if o := prog.CallObj(c); o != nil {
+						name = o.Name()
+					} else if f := c.Common().StaticCallee(); f != nil && f.Origin() != nil {
+						name = f.Origin().Name()
+					}
+					if name != "Len" && name != "contentLen" {
+						continue
+					}
+					rv := recvOf(c)
+					// a node reached over the chain link (the loop variable), not the starting node
+					stepped := prog.Reaches(rv, func(w ssa.Value) bool {
+						f := prog.LoadedField(w)
+						return f != nil && f.Name() == sp.link
+					})
+					if stepped {
+						units[name] = true
+					}
+				}
+				x.check(len(units) == 1 && units["Len"], "func="+prog.FnName(fn)+" stepped-nodes-measured-by-Len", x.fpos(fn), "every node stepped over counts with its live length", fmt.Sprintf("the nodes stepped over are measured by %v instead of the live length Len() only: tombstones are counted on one side of the normalise/refine pair and skipped on the other", keysOf(units)))
+			}
+			if n < 2 {
+				x.C.Vacuous(x.id()+" functions", n, 2)
+			}
+		}})
+}
